@@ -769,6 +769,42 @@ def _s4_slice_contract(program, res):
                     f"SQL dialect and 'bc' on Pandas (str.slice(start, stop)); the two agree only for start = 0", rets[0])
 
 
+def _s4b_polars_slice_contract(program, res):
+    """the Polars twin of S4: `Expr.str.slice(offset, length)` takes a *length* (Polars API), the catalogued trimstr(start, stop) a stop.  An entry that hands start and
+    stop over as they are returns s[start:start+stop] — right only for start = 0"""
+    import ast as _ast
+    pm = program.modules.get("polars_model")
+    if pm is None:
+        return
+    entries = []
+    for f in program.all_functions():
+        if f.module is not pm:
+            continue
+        for d_ in _ast.walk(f.node):
+            if isinstance(d_, _ast.Dict):
+                for k, v_ in zip(d_.keys, d_.values):
+                    if isinstance(k, _ast.Constant) and k.value == "trimstr":
+                        entries.append((f, v_))
+    if not entries:
+        res.abstain("C05-S4", "Polars trimstr", "no entry in the Polars implementation maps")
+        return
+    for f, e in entries:
+        slices = [c for c in _ast.walk(e) if isinstance(c, _ast.Call) and isinstance(c.func, _ast.Attribute) and c.func.attr == "slice" and len(c.args) >= 2]
+        if not slices:
+            res.ok("C05-S4", "Polars trimstr: no str.slice with a second argument (an entry that raises is outside the property)", nontrivial=False)
+            continue
+        params = [a.arg for a in e.args.args] if isinstance(e, _ast.Lambda) else []
+        for c in slices:
+            second = c.args[1]
+            names = {x.id for x in _ast.walk(second) if isinstance(x, _ast.Name)}
+            if isinstance(second, _ast.BinOp) and isinstance(second.op, _ast.Sub) and len(names & set(params)) >= 2:
+                res.ok("C05-S4", "Polars trimstr: the length handed to str.slice is stop - start")
+            else:
+                res.fail_at("C05-S4", f, "polars-trimstr-length-is-stop",
+                            f"`{unparse(c)[:50]}`: Polars' str.slice takes (offset, length); with the catalogued (start, stop) handed over as they are, x.trimstr(1, 3) of 'abcdef' is "
+                            f"'bcd' on Polars and 'bc' on Pandas and SQL — the two agree only for start = 0", c)
+
+
 def _s5_if_else_missing(program, res):
     """Pandas if_else: numpy.where gives an array of the branches' type (int, bool, fixed-width string); the documented None for a missing
     condition can be stored only after the array was given a type that can hold it"""
@@ -1224,6 +1260,7 @@ def run(program, res, tier):
     _s3(program, res, impl, tmeth)
     res.rule("C05-S4", "string slicing: SUBSTR's length argument is stop - start")
     _s4_slice_contract(program, res)
+    _s4b_polars_slice_contract(program, res)
     res.rule("C05-S5", "Pandas if_else returns a missing value for a missing condition, whatever the branch types")
     _s5_if_else_missing(program, res)
     res.rule("C05-S6", "Pandas concat does not spell a missing operand as text")
